@@ -448,7 +448,7 @@ Definition jcand_of (w : service) (fin : str) (r : route) : list route_cand :=
   match jsr_match O (pe_toks pe) fin with
   | Some (caps, f2) =>
       if final_ok f2 then
-        [{| rc_route := r; rc_matches := S (List.length caps); rc_literal := pe_literal pe;
+        [{| rc_route := r; rc_matches := S (List.length caps) + pe_groups pe; rc_literal := pe_literal pe;
             rc_nondef := pe_vars pe; rc_path := route_path w r |}]
       else []
   | None => []
@@ -552,7 +552,7 @@ Definition dcand_of (path : str) (w : service) : list disp_cand :=
   let pe := path_expression (s_root w) in
   match jsr_match O (pe_toks pe) path with
   | Some (caps, fin) =>
-      [{| dc_ws := w; dc_final := fin; dc_matches := S (S (List.length caps));
+      [{| dc_ws := w; dc_final := fin; dc_matches := S (S (List.length caps)) + pe_groups pe;
           dc_literal := pe_literal pe; dc_nondef := pe_vars pe |}]
   | None => []
   end.
